@@ -28,7 +28,7 @@ def ser_string(stream, s: bytes) -> int:
 
 def read_string(stream) -> bytes:
     l = compact.read_from(stream)
-    s = stream.read(l)
+    s = compact.read_bytes(stream, l)
     if len(s) != l:
         raise PSBTError("Failed to read %d bytes" % l)
     return s
